@@ -430,3 +430,36 @@ class SymSim:
 def in_exploration(fn, assumptions=(), **kw):
     """Run fn() under an Explorer; returns list of paths."""
     return explore(fn, assumptions, **kw)
+
+
+def construct_or_report(factory, base, replay, stage="Simulator(design)"):
+    """Build a design with `factory()` and a SymSim for it.  Returns (design, sim, None) or (None, None, result):
+    a diagnostic of the language while BUILDING the design means the generated program is not a legal one (skipped); an exception
+    while the simulator is constructed for a design the language accepted is a violation if the genuine Simulator raises too
+    (a crash such as a Python SyntaxError from the generated code), and a harness error otherwise."""
+    import warnings
+    try:
+        with warnings.catch_warnings():
+            warnings.simplefilter("ignore")
+            design = factory()
+    except Exception as ex:
+        return None, None, dict(base, kind="unconstructible", status="skipped", detail=f"{type(ex).__name__}: {ex}")
+    try:
+        with warnings.catch_warnings():
+            warnings.simplefilter("ignore")
+            top = design[0] if isinstance(design, tuple) else design
+            return design, SymSim(top), None
+    except Exception as ex:
+        if (type(ex).__module__ or "").startswith("amaranth"):
+            return None, None, dict(base, kind="unconstructible", status="skipped", detail=f"rejected by the language: {type(ex).__name__}: {ex}")
+        from amaranth.sim import Simulator
+        try:
+            with real_states(), warnings.catch_warnings():
+                warnings.simplefilter("ignore")
+                d2 = factory()
+                Simulator(d2[0] if isinstance(d2, tuple) else d2)
+        except Exception as ex2:
+            return None, None, dict(base, kind="construction", status="violation",
+                                    detail=f"{base.get('program', '')[:400]}: {stage} raises {type(ex2).__name__}: {str(ex2)[:200]} for a design the language accepts",
+                                    signature={"kind": "construction", "exception": type(ex2).__name__}, replay=replay)
+        return None, None, dict(base, kind="construction", status="error", detail=f"SymSim raised {type(ex).__name__}: {ex} but Simulator() does not")
